@@ -1,6 +1,7 @@
 """Implementation-only metamorphic relations (the failing-input search of the properties whose
 statement is itself a relation between two runs of the library)."""
 import copy
+import math
 import pickle
 import random
 
@@ -1187,3 +1188,282 @@ def _map_vals(x, f):
             return [(k, f(k, v)) for k, v in x]
         return [_map_vals(v, f) for v in x]
     return x
+
+
+# ------------------------------------------------------------------ C15 / C16 the Simulator
+
+def gen_sim(seed, index):
+    rng = random.Random("%s/sim/%s" % (seed, index))
+    contextual = rng.random() < 0.7
+    ltype = rng.choice(["int", "str"])
+    pool = list(G.LABEL_SETS[ltype])
+    rng.shuffle(pool)
+    arms = pool[:rng.choice([2, 3, 4])]
+    n = rng.choice([12, 15, 20, 23, 30, 41])
+    d = rng.choice([1, 2, 3])
+    data_arms = arms if rng.random() < 0.8 else arms[:-1]       # an arm absent from the data
+    decisions = [rng.choice(data_arms) for _ in range(n)]
+    binary = rng.random() < 0.5
+    rewards = [rng.choice([0, 1]) if binary else rng.choice([0, 1, 2, 3, 0.5, 1.5, -1]) for _ in range(n)]
+    contexts = [[float(rng.randint(0, 4)) for _ in range(d)] for _ in range(n)] if contextual else None
+    bandits = []
+    for bi in range(rng.choice([1, 2, 3])):
+        if contextual:
+            npk = rng.choice([None, "radius", "radius", "knn", "knn", "lsh", "clusters", "tree"])
+            lpk = rng.choice(["greedy", "ucb", "thompson", "softmax", "lingreedy", "linucb"]) if npk != "tree" else rng.choice(["greedy", "ucb"])
+            if npk is None:
+                lpk = rng.choice(["lingreedy", "linucb", "lints"])
+            if lpk == "thompson" and not binary:
+                lpk = "greedy"
+        else:
+            npk = None
+            lpk = rng.choice(["greedy", "ucb", "softmax", "thompson", "popularity", "random"])
+            if lpk == "thompson" and not binary:
+                lpk = "ucb"
+            if lpk == "popularity" and not binary:
+                lpk = "greedy"
+        lp = G.gen_lp(rng, lpk)
+        if rng.random() < 0.6 and "eps" in lp:
+            lp["eps"] = 0.0
+        npc = G.gen_np(rng, npk, len(arms), d)
+        if npc and npc["k"] == "knn":
+            npc["kk"] = rng.choice([1, 2, 3])
+        if npc and npc["k"] == "radius":
+            npc["probs"] = None
+        bandits.append({"lp": lp, "np": npc, "arms": list(arms), "seed": rng.randint(0, 10 ** 6), "binz": None,
+                        "n_jobs": rng.choice([1, 1, 2]), "backend": None})
+    test_size = rng.choice([0.2, 0.3, 0.4, 0.5])
+    boundary = rng.random() < 0.08
+    if boundary:
+        # n * (1 - test_size) lands just below an integer in floating point: 90 * 0.7 = 62.99999999999999
+        n, test_size = 90, 0.3
+        decisions = [rng.choice(data_arms) for _ in range(n)]
+        rewards = [rng.choice([0, 1]) if binary else rng.choice([0, 1, 2, 3, 0.5, 1.5, -1]) for _ in range(n)]
+        contexts = [[float(rng.randint(0, 4)) for _ in range(d)] for _ in range(n)] if contextual else None
+        bandits = bandits[:1]
+        bandits[0]["n_jobs"] = 1
+    # Radius bandits: put the radius exactly on a realised (irrational) euclidean distance now and then
+    for bc in bandits:
+        npc = bc.get("np")
+        if npc and npc["k"] == "radius" and contexts and rng.random() < 0.5:
+            cands = []
+            for _ in range(12):
+                i, j = rng.randrange(n), rng.randrange(n)
+                dd = float(np.sqrt(sum((a - b) ** 2 for a, b in zip(contexts[i], contexts[j]))))
+                if dd > 0 and dd != int(dd):
+                    cands.append(dd)
+            # prefer a distance that a lower-precision copy would round *up* (boundary sensitivity)
+            up = [x for x in cands if float(np.float32(x)) > x]
+            dd = rng.choice(up) if up else (rng.choice(cands) if cands else 0.0)
+            if dd > 0:
+                npc["metric"] = "euclidean"
+                # exactly on, just inside or just outside a realised distance
+                npc["r"] = dd * rng.choice([1.0, 1.0 - 1e-9, 1.0 + 1e-9, 1.0 - 1e-9])
+    n_test = n - int(n * (1 - test_size))
+    batch = rng.choice([0, 0, 1, 2, 3, n_test // 2 or 1, n_test])
+    batch = min(batch, max(1, n_test - 1)) if batch else 0
+    return {"bandits": bandits, "decisions": decisions, "rewards": rewards, "contexts": contexts, "test_size": test_size,
+            "is_ordered": True if boundary else rng.random() < 0.5, "batch_size": batch, "is_quick": rng.random() < 0.5, "seed": rng.randint(0, 10 ** 6),
+            "cfg": {"lp": bandits[0]["lp"], "np": bandits[0]["np"], "arms": arms}, "ops": []}
+
+
+def _deterministic_expectations(cfg):
+    k = cfg["lp"]["k"]
+    return k == "ucb" or k == "linucb" or (k in ("greedy", "lingreedy") and cfg["lp"].get("eps", 0) == 0)
+
+
+def run_simulator(scn):
+    import logging
+    from mabwiser.simulator import Simulator
+    mabs = [S.make_mab(c) for c in scn["bandits"]]
+    originals = [copy.deepcopy(m) for m in mabs]
+    lg = logging.getLogger()
+    before = list(lg.handlers)
+    level = lg.level
+    logging.disable(logging.CRITICAL)
+    try:
+        sim = Simulator([("b%d" % i, m) for i, m in enumerate(mabs)], list(scn["decisions"]), list(scn["rewards"]),
+                        None if scn["contexts"] is None else [list(r) for r in scn["contexts"]],
+                        scaler=None, test_size=scn["test_size"], is_ordered=scn["is_ordered"], batch_size=scn["batch_size"],
+                        seed=scn["seed"], is_quick=scn["is_quick"])
+        sim.run()
+    finally:
+        for h in list(lg.handlers):
+            if h not in before:
+                lg.removeHandler(h)
+        lg.setLevel(level)
+        logging.disable(logging.NOTSET)
+    return sim, originals
+
+
+def _split(scn):
+    from sklearn.model_selection import train_test_split
+    n = len(scn["decisions"])
+    dec = np.asarray(scn["decisions"])
+    rew = np.asarray(scn["rewards"])
+    ctx = None if scn["contexts"] is None else np.asarray(scn["contexts"], dtype=float)
+    if scn["is_ordered"]:
+        k = int(n * (1 - scn["test_size"]))
+        tr = list(range(k))
+        te = list(range(k, n))
+    else:
+        tr, te = train_test_split(list(range(n)), test_size=scn["test_size"], random_state=scn["seed"])
+    return dec, rew, ctx, list(tr), list(te)
+
+
+@twin("simulator_vs_public_api")
+@T.quiet
+def simulator_vs_public_api(scn):
+    T.register_labels({"cfg": {"arms": scn["bandits"][0]["arms"]}, "ops": []})
+    try:
+        sim, originals = run_simulator(scn)
+    except Exception as e:  # noqa: BLE001
+        return "Simulator.run raised %r" % (e,)
+    dec, rew, ctx, tr, te = _split(scn)
+    if [int(x) for x in sim.test_indices] != [int(x) for x in te]:
+        return "test_indices %r differ from the split %r" % (list(sim.test_indices), te)
+    bs = scn["batch_size"]
+    for i, (cfg, m) in enumerate(zip(scn["bandits"], originals)):
+        name = "b%d" % i
+        ctxual = m.is_contextual
+        preds = []
+        exps = []
+        det = _deterministic_expectations(cfg)
+        npk = (cfg.get("np") or {}).get("k")
+        nbr = npk in ("radius", "knn", "lsh")
+        if ctxual:
+            m.fit(dec[tr], rew[tr], ctx[tr])
+        else:
+            m.fit(dec[tr], rew[tr])
+        batches = [te] if bs == 0 else [te[j:j + bs] for j in range(0, len(te), bs)]
+        for b in batches:
+            if ctxual:
+                if det:
+                    shadow = copy.deepcopy(m)
+                    e = shadow.predict_expectations(ctx[b])
+                    exps += e if isinstance(e, list) else [e]
+                p = m.predict(ctx[b])
+                preds += p if isinstance(p, list) else [p]
+                if not nbr:
+                    m.predict_expectations(ctx[b])       # the protocol reads expectations after predicting
+            else:
+                preds += [m.predict() for _ in b]
+            if bs > 0:
+                if ctxual:
+                    m.partial_fit(dec[b], rew[b], ctx[b])
+                else:
+                    m.partial_fit(dec[b], rew[b])
+        got = T.canon(list(sim.bandit_to_predictions[name]))
+        want = T.canon(preds)
+        if got != want:
+            bad = [j for j, (x, y) in enumerate(zip(got, want)) if x != y][:5]
+            return "bandit %d (%s/%s): Simulator predictions differ from the public-API replay at test rows %r: %r vs %r" % (
+                i, cfg["lp"]["k"], npk, bad, [got[j] for j in bad], [want[j] for j in bad]) if len(got) == len(want) else \
+                "bandit %d: Simulator reports %d predictions, the replay %d" % (i, len(got), len(want))
+        if ctxual and det:
+            gote = T.canon(list(sim.bandit_to_expectations[name]))
+            wante = T.canon(exps)
+            # empty neighbourhood: the Simulator reports {} where the public API reports NaN for every arm
+            # (both mean "no expectation"; documented in DESIGN.md as an observation, not a finding)
+            wante = [[] if (isinstance(w, list) and w and all(isinstance(v, float) and v != v for _, v in w) and g == []) else w
+                     for w, g in zip(wante, gote + [None] * len(wante))]
+            if len(gote) == len(wante) and not T.same(gote, wante, 1e-9):
+                bad = [j for j, (x, y) in enumerate(zip(gote, wante)) if not T.same(x, y, 1e-9)][:3]
+                return "bandit %d (%s/%s): Simulator expectations differ from predict_expectations at test rows %r: %r vs %r" % (
+                    i, cfg["lp"]["k"], npk, bad, [gote[j] for j in bad], [wante[j] for j in bad])
+    return None
+
+
+def _stats(vals):
+    a = np.asarray(vals, dtype=float)
+    if a.size == 0:
+        return {"count": 0, "sum": 0, "min": 0, "max": 0, "mean": 0, "std": 0}
+    return {"count": int(a.size), "sum": float(a.sum()), "min": float(a.min()), "max": float(a.max()), "mean": float(a.mean()),
+            "std": float(a.std())}
+
+
+@twin("simulator_bookkeeping")
+@T.quiet
+def simulator_bookkeeping(scn):
+    T.register_labels({"cfg": {"arms": scn["bandits"][0]["arms"]}, "ops": []})
+    try:
+        sim, _ = run_simulator(scn)
+    except Exception as e:  # noqa: BLE001
+        return "Simulator.run raised %r" % (e,)
+    n = len(scn["decisions"])
+    dec = np.asarray(scn["decisions"])
+    rew = np.asarray(scn["rewards"], dtype=float)
+    te = [int(x) for x in sim.test_indices]
+    if len(set(te)) != len(te) or not all(0 <= x < n for x in te):
+        return "test_indices are not distinct row indices: %r" % (te,)
+    k = int(n * (1 - scn["test_size"]))
+    if scn["is_ordered"] and te != list(range(k, n)):
+        return "ordered split: test_indices %r are not the last %d rows" % (te, n - k)
+    tr = [i for i in range(n) if i not in set(te)]
+    arms = scn["bandits"][0]["arms"]
+    for scope, idx, got in (("total", list(range(n)), sim.arm_to_stats_total), ("train", tr, sim.arm_to_stats_train),
+                            ("test", te, sim.arm_to_stats_test)):
+        for a in arms:
+            want = _stats([rew[i] for i in idx if dec[i] == a])
+            g = got[a]
+            for key in ("count", "sum", "min", "max", "mean"):
+                if not T.same(float(g[key]), float(want[key]), 1e-9):
+                    return "%s statistics of arm %r: %s is %r, recomputation gives %r" % (scope, a, key, g[key], want[key])
+    for a in arms:
+        for key in ("count", "sum"):
+            if not T.same(float(sim.arm_to_stats_train[a][key] + sim.arm_to_stats_test[a][key]), float(sim.arm_to_stats_total[a][key]), 1e-9):
+                return "arm %r: train + test %s differs from total" % (a, key)
+    bs = scn["batch_size"]
+    for i in range(len(scn["bandits"])):
+        name = "b%d" % i
+        preds = sim.bandit_to_predictions[name]
+        if len(preds) != len(te):
+            return "bandit %d: %d predictions for %d test rows" % (i, len(preds), len(te))
+        views = []
+        if bs == 0:
+            views.append(("total", sim.bandit_to_arm_to_stats_min[name], sim.bandit_to_arm_to_stats_avg[name],
+                          sim.bandit_to_arm_to_stats_max[name], list(range(len(te)))))
+        else:
+            for key in sim.bandit_to_arm_to_stats_min[name]:
+                rows = list(range(len(te))) if key == "total" else list(range(key * bs, min((key + 1) * bs, len(te))))
+                views.append((key, sim.bandit_to_arm_to_stats_min[name][key], sim.bandit_to_arm_to_stats_avg[name][key],
+                              sim.bandit_to_arm_to_stats_max[name][key], rows))
+            keys = [kk for kk in sim.bandit_to_arm_to_stats_min[name] if kk != "total"]
+            want_keys = list(range(int(math.ceil(len(te) / bs))))
+            if keys != want_keys:
+                return "bandit %d: evaluated batches %r, expected %r" % (i, keys, want_keys)
+        for key, mn, av, mx, rows in views:
+            cnt = sum(int(mn[a]["count"]) for a in arms)
+            if cnt != len(rows):
+                return "bandit %d, evaluation %r: evaluated counts sum to %d for %d test rows" % (i, key, cnt, len(rows))
+            for a in arms:
+                if int(mn[a]["count"]) == 0:
+                    continue
+                c_pred = sum(1 for j in rows if T.canon(preds[j]) == T.canon(a))
+                if int(mn[a]["count"]) != c_pred or int(av[a]["count"]) != c_pred or int(mx[a]["count"]) != c_pred:
+                    return "bandit %d, evaluation %r: arm %r credited %d times but predicted %d times" % (i, key, a, int(mn[a]["count"]), c_pred)
+                if not (mn[a]["sum"] <= av[a]["sum"] + 1e-9 and av[a]["sum"] <= mx[a]["sum"] + 1e-9):
+                    return "bandit %d, evaluation %r, arm %r: min/mean/max analyses not ordered: %r %r %r" % (
+                        i, key, a, mn[a]["sum"], av[a]["sum"], mx[a]["sum"])
+                # context-free / non-neighbourhood bandits: the credited value is the observed reward on a match,
+                # else the arm's training statistic
+                cfg = scn["bandits"][i]
+                nn = (cfg.get("np") or {}).get("k") in ("radius", "knn", "lsh") and not scn["is_quick"]
+                nstats = sim.bandit_to_arm_to_stats_neighborhoods[name] if nn else None
+                if True:
+                    for stat, view in (("min", mn), ("mean", av), ("max", mx)):
+                        want = 0.0
+                        for j in rows:
+                            if T.canon(preds[j]) != T.canon(a):
+                                continue
+                            row = te[j]
+                            if T.canon(dec[row]) == T.canon(a):
+                                want += float(rew[row])
+                            elif nn and j < len(nstats) and nstats[j] and nstats[j].get(a):
+                                # the predicted arm's statistic within this test row's neighbourhood
+                                want += float(nstats[j][a][stat])
+                            else:
+                                want += float(sim.arm_to_stats_train[a][stat])
+                        if not T.same(float(view[a]["sum"]), want, 1e-9):
+                            return "bandit %d, evaluation %r (%s), arm %r: sum %r, recomputation %r" % (i, key, stat, a, view[a]["sum"], want)
+    return None
